@@ -77,7 +77,7 @@ def run(ctx):
         cs = gen(ctx, cfg, timeout=ctx.q(600, 2400))
         exhaustive.append("%s=%d" % (cfg, len(cs)))
         cases += cs
-    cases += gen(ctx, "MC_Annotate_sim", simulate="num=%d" % ctx.q(60, 1500), timeout=ctx.q(600, 2400))
+    cases += gen(ctx, "MC_Annotate_sim", simulate="num=%d" % ctx.q(60, 400), timeout=ctx.q(600, 2400))
     negs = [("firstparent", "InvWalkMeetsContract"), ("droplast", "InvWalkMeetsContract")]
 
     def neg(b):
